@@ -809,7 +809,8 @@ def run(ctx):
             pred_fail.append((c, r, bad))
         if c["id"] in failing:
             d["coq_disagree"] += 1
-        tags[c.get("class", "corpus")] = tags.get(c.get("class", "corpus"), 0) + 1
+        cls = c.get("class") or ("corpus" if c.get("origin") != "generated" else "(no cell: %s)" % c["fn"])
+        tags[cls] = tags.get(cls, 0) + 1
     for cid, _ in terms:
         by_fn[cases[cid]["fn"]]["coq_compared"] += 1
 
